@@ -223,6 +223,15 @@ impl GLM {
             println!("{:?}", coef);
         }
 
+        // report deviance and information at the returned coefficients, not at the previous iterate
+        eta = matmul(x, &coef, n, p, false, false);
+        if let Some(offset) = &self.offsets {
+            eta = vadd(&eta, offset);
+        }
+        mu = self.family.inv_link(&eta);
+        dmu = self.family.d_inv_link(&eta, &mu);
+        var = self.family.variance(&mu);
+
         self.coef = Some(coef);
         self.deviance = Some(self.family.deviance(y, &mu));
         self.information_matrix = Some(self.compute_ddbeta(x, &dmu, &var, &weights));
